@@ -1,7 +1,11 @@
 """C09 — ENABLE_PEDANTIC switch: op sequences (setenv / unsetenv / enable_pedantic / disable_pedantic / obtain a decorator /
 decorate / apply / decorate the same function object again / call / derive a sub class of a decorated class / reach an
 (inherited) member through a class object or an instance) run against the real library and against the Lean state machine +
-specification."""
+specification.  Decoration targets are ordinary functions / classes AND objects the decorators are not made for ("odd": a function
+made with exec — no source text —, a builtin, a functools.partial, an instance with __call__, a lambda, a bound method, a
+staticmethod / classmethod object, a function without annotations, a function whose docstring contradicts its signature, a class made with exec, an Enum, a dataclass, a builtin
+type; a class handed to a function decorator, a function handed to a class decorator): switched off, the very object must come
+back whatever it is; switched on, neither model nor specification say anything about such an object."""
 import os, sys, io, itertools, json, contextlib, tempfile, shutil, types, asyncio, inspect
 
 RULE = ('exhaustive: every op sequence of length <= 4 over the reduced alphabet {unsetenv, enable_pedantic, disable_pedantic, the seven '
@@ -21,11 +25,19 @@ RULE = ('exhaustive: every op sequence of length <= 4 over the reduced alphabet 
         'first derived class (via and call kind rotating)} from an unset variable (length <= 3: also from "0" and "1"), and the grid initial value x 9 class '
         'decorators x every spelling x {documented, undocumented} x {sub class created and used before the toggle, created before and first used after it, '
         'created after it, derived from a derived class, created after toggling back} x 5 members x 2 routes x 3 call kinds, all owners revisited after '
-        'toggling back; thorough: also length 5 of the sub class alphabet;  thorough: also every sequence of length 5 over {enable, disable, the seven decorators, call latest positionally}; plus seeded random sequences of 3..30 ops (600 / 100000) over all of the above, other strings and near-miss handle indices (and re-decoration of class objects, which the model does not describe: `bad` on both sides).  Every target is a fresh object from a real .py file unless the op says "the same object again"; the variable is set '
+        'toggling back; ODD TARGETS (objects the decorators are not made for: function made with exec, builtin len, functools.partial, '
+        'callable instance, lambda, bound method, staticmethod object, classmethod object, function without annotations, function with a contradictory docstring, class made with exec, Enum, '
+        'dataclass, builtin type int; every class shape handed to a function decorator, every function shape handed to a class decorator): the grid initial value '
+        '(unset, "0", "1", 3 other strings) x 11 decorators x 14 odd shapes + the misfitting ordinary shapes x every spelling (direct and obtained earlier) x {no '
+        'toggle, opposite toggle} with all call kinds, a second decoration of the same object under the flipped switch and a toggle back, and every sequence of '
+        'length <= 4 over {enable, disable, unsetenv, five decorations of odd / misfitting objects, the first object again, call first / latest result} from an unset '
+        'variable (length <= 3: also from "0" and "1") — switched off the specification demands the very object back, unmodified, and a call that shows nothing; '
+        'switched on it claims nothing and the model answers `unspecified` (compared with nothing); thorough: also length 5 of the sub class alphabet;  thorough: also every sequence of length 5 over {enable, disable, the seven decorators, call latest positionally}; plus seeded random sequences of 3..30 ops (600 / 100000) over all of the above, other strings and near-miss handle indices (and re-decoration of class objects, which the model does not describe: `bad` on both sides).  Every target is a fresh object from a real .py file unless the op says "the same object again"; the variable is set '
         'per sequence and restored afterwards.  non-trivial = the sequence calls a live decoration result or a member of a live class')
 EXHAUSTIVE = {'quick': True, 'thorough': True}
 ASSUMPTIONS = ['single-threaded: nothing else writes os.environ["ENABLE_PEDANTIC"] between the read in a decorator and its return',
-               'targets are plain (async) functions and classes whose members are methods / properties; "checked" is observed as: a '
+               'targets for which the ENABLED behaviour is modelled and claimed are plain (async) functions and classes whose members are methods / properties '
+               '(for every other object only the disabled behaviour — identity — is modelled and claimed); "checked" is observed as: a '
                'positional call or a wrongly typed keyword raises a PedanticException (pedantic family), stdout is written (trace/timer), '
                'the harness decorator recorded the call (for_all_methods with a foreign decorator)',
                'decorating the same object again is modelled (and claimed) for function objects: the function object is left as it is by its decorators; '
@@ -49,6 +61,13 @@ ALL_DECOS = FN_DECOS + CLS_DECOS
 FN_SHAPES = ['fn', 'fn_nodoc', 'afn', 'afn_nodoc']
 CLS_SHAPES = ['K', 'K_nodoc', 'K2', 'K2_nodoc', 'K3', 'K3_nodoc']
 FULL_SHAPES = ['K3', 'K3_nodoc']          # classes with an instance method, a class method, a static method and a property (getter + setter)
+# objects the decorators are not made for: callables that are no plain, source-backed, consistently documented functions ...
+ODD_FN_SHAPES = ['x_exec', 'x_builtin', 'x_partial', 'x_callable', 'x_lambda', 'x_method', 'x_noannot', 'x_baddoc', 'x_staticmethod',
+                 'x_classmethod']
+# ... and classes that are no plain source-backed classes
+ODD_CLS_SHAPES = ['x_exec_cls', 'x_enum', 'x_dataclass', 'x_int']
+ODD_SHAPES = ODD_FN_SHAPES + ODD_CLS_SHAPES
+PROBE_POSITIONAL = {'x_builtin': [1], 'x_enum': 1, 'x_int': 1}      # called as f(<value>) whatever the call kind (no parameter `a`)
 MEMBERS = ['m', 'cm', 'sm', 'pget', 'pset']
 VIAS = ['cls', 'inst']
 KINDS = ['good', 'positional', 'wrongType']
@@ -88,14 +107,42 @@ SOURCES = {
     'afn_nodoc': 'async def afn_nodoc(a: int) -> int:\n    return a\n',
     'K': _cls('K', True), 'K_nodoc': _cls('K_nodoc', False), 'K2': _cls('K2', True), 'K2_nodoc': _cls('K2_nodoc', False),
     'K3': _cls3('K3', True), 'K3_nodoc': _cls3('K3_nodoc', False),
+    # odd targets that live in a real file
+    'x_lambda': 'x_lambda = lambda a: a\n',
+    'x_noannot': 'def x_noannot(a):\n    return a\n',
+    'x_baddoc': ('def x_baddoc(a: int) -> int:\n    """ D.\n\n    Args:\n        b (str): there is no such parameter\n\n    Returns:\n'
+                 '        str: not the annotated type\n    """\n    return a\n'),
+    'x_method': 'class Owner:\n    def m(self, a: int) -> int:\n        return a\n\n\nx_method = Owner().m\n',
+    'x_callable': 'class CallableObject:\n    def __call__(self, a: int) -> int:\n        return a\n\n\nx_callable = CallableObject()\n',
+    'x_partial': 'import functools\n\n\ndef plain(a: int) -> int:\n    return a\n\n\nx_partial = functools.partial(plain)\n',
+    'x_staticmethod': 'def plain(a: int) -> int:\n    return a\n\n\nx_staticmethod = staticmethod(plain)\n',
+    'x_classmethod': 'def plain(cls, a: int) -> int:\n    return a\n\n\nx_classmethod = classmethod(plain)\n',
+    'x_enum': 'import enum\n\n\nclass x_enum(enum.Enum):\n    A = 1\n    B = 2\n',
+    'x_dataclass': 'from dataclasses import dataclass\n\n\n@dataclass\nclass x_dataclass:\n    a: int\n',
+}
+# odd targets without any source text: made with exec from a string
+SOURCELESS = {
+    'x_exec': 'def x_exec(a, b=2):\n    return a\n',
+    'x_exec_cls': 'class x_exec_cls:\n    def m(self, a):\n        return a\n',
 }
 
 
 def tgt(shape):
+    if shape in ODD_SHAPES:
+        return {'cls': shape in ODD_CLS_SHAPES, 'doc': False, 'odd': True}
     t = {'cls': shape in CLS_SHAPES, 'doc': not shape.endswith('_nodoc')}
     if shape in FULL_SHAPES:
         t['full'] = True
     return t
+
+
+def is_cls_shape(shape):
+    return shape in CLS_SHAPES or shape in ODD_CLS_SHAPES
+
+
+def misfits(d):
+    """the ordinary shapes decorator d is NOT made for"""
+    return CLS_SHAPES[:2] + FULL_SHAPES[:1] if d in FN_DECOS else FN_SHAPES
 
 
 def forms_direct(d):
@@ -380,7 +427,75 @@ def inherit_grid_cases():
     return out
 
 
-def random_case(rng, maxlen=30, origin='random', again=0.12, inherit=0.16):
+ODD_SYMS = [('env', 'enable'), ('env', 'disable'), ('env', 'unsetenv'),
+            ('deco', 'pedantic', 'x_exec'), ('deco', 'pedantic_require_docstring', 'x_builtin'), ('deco', 'pedantic_class', 'x_enum'),
+            ('deco', 'trace_class', 'fn'), ('deco', 'pedantic', 'K'), ('re', 'pedantic_require_docstring', 'first'),
+            ('call', 'first'), ('call', 'last')]
+
+
+def resolve_odd(seq, rot=0):
+    """decorations of odd / misfitting objects; 'first' = the object the first decoration was applied to; spellings, the odd shape of
+    the first two symbols and the call kind rotate so that every object meets every situation"""
+    pairs, nh = [], 0
+    for i, s in enumerate(seq):
+        j = i + rot
+        if s[0] == 'env':
+            pairs.append(([s[1]], None))
+        elif s[0] == 'deco':
+            forms = forms_direct(s[1])
+            shape = s[2]
+            if shape == 'x_exec':
+                shape = ODD_FN_SHAPES[(j // 2) % len(ODD_FN_SHAPES)] if j % 2 else 'x_exec'
+            elif shape == 'x_enum':
+                shape = ODD_CLS_SHAPES[(j // 2) % len(ODD_CLS_SHAPES)] if j % 2 else 'x_enum'
+            pairs.append(op_decorate(s[1], shape, forms[j % len(forms)]))
+            nh += 1
+        elif s[0] == 're':
+            forms = forms_direct(s[1])
+            pairs.append(op_redecorate(s[1], 0, forms[(j + 1) % len(forms)]))
+            nh += 1
+        else:
+            h = 0 if (s[1] == 'first' or nh == 0) else nh - 1
+            pairs.append((['call', h, KINDS[j % 3]], None))
+    return pairs
+
+
+def odd_grid_cases():
+    """every decorator x every object it is not made for x every spelling (direct / obtained earlier) x initial value x {no toggle, toggle}:
+    decorate, call (all kinds), flip the switch, call again, hand the same object in once more (callables only), call both results, flip
+    back, decorate a fresh object of the same shape, call"""
+    out = []
+    for env in CLAIMED + OTHER_VALUES[:3]:
+        for d in ALL_DECOS:
+            for shape in ODD_SHAPES + misfits(d):
+                spellings = [('direct', f) for f in forms_direct(d)] + [('factory', f) for f in forms_factory(d)]
+                for how, form in spellings:
+                    for toggle in (None, opposite(env)):
+                        pairs = []
+                        if how == 'factory':
+                            pairs.append(op_factory(d, form))
+                        if toggle:
+                            pairs.append((toggle, None))
+                        pairs.append(op_decorate(d, shape, form) if how == 'direct' else op_apply(0, shape))
+                        pairs += [(['call', 0, k], None) for k in KINDS]
+                        now = env if not toggle else ('1' if toggle == ['enable'] else '0')
+                        pairs.append((opposite(now), None))
+                        pairs.append((['call', 0, 'positional'], None))
+                        nh = 1
+                        if not is_cls_shape(shape):
+                            pairs.append(op_redecorate(d, 0, form) if how == 'direct' else op_reapply(0, 0))
+                            pairs += [(['call', 1, 'wrongType'], None), (['call', 0, 'wrongType'], None)]
+                            nh = 2
+                        pairs.append((opposite('1' if opposite(now) == ['enable'] else '0'), None))
+                        pairs.append(op_decorate(d, shape, forms_direct(d)[0]))
+                        pairs += [(['call', nh, 'good'], None), (['call', 0, 'good'], None)]
+                        if is_cls_shape(shape):
+                            pairs += [op_subclass(nh), op_callm(nh, 'm', 'inst', 'wrongType'), op_callm(nh + 1, 'm', 'cls', 'positional')]
+                        out.append(build(env, pairs, 'odd-grid'))
+    return out
+
+
+def random_case(rng, maxlen=30, origin='random', again=0.12, inherit=0.16, odd=0.15):
     vals = [None, '0', '1'] * 4 + OTHER_VALUES + ['0 ', 'false', '١', '1\t', 'enable']
     env = rng.choice(vals)
     pairs, nh, nf, fdecos = [], 0, 0, []
@@ -419,8 +534,13 @@ def random_case(rng, maxlen=30, origin='random', again=0.12, inherit=0.16):
             pairs.append((['setenv', rng.choice([v for v in vals if v is not None])], None) if k == 'setenv' else ([k], None))
         elif r < 0.52:
             d = rng.choice(ALL_DECOS)
-            pairs.append(op_decorate(d, rng.choice(FN_SHAPES if d in FN_DECOS else CLS_SHAPES), rng.choice(forms_direct(d))))
-            (fn_handles if d in FN_DECOS else cls_handles).append(nh)
+            if rng.random() < odd:
+                # an object the decorator is not made for
+                shape = rng.choice(ODD_SHAPES + misfits(d))
+            else:
+                shape = rng.choice(FN_SHAPES if d in FN_DECOS else CLS_SHAPES)
+            pairs.append(op_decorate(d, shape, rng.choice(forms_direct(d))))
+            (cls_handles if shape in CLS_SHAPES else fn_handles if not is_cls_shape(shape) else []).append(nh)
             nh += 1
         elif r < 0.60:
             d = rng.choice(ALL_DECOS)
@@ -429,8 +549,12 @@ def random_case(rng, maxlen=30, origin='random', again=0.12, inherit=0.16):
             nf += 1
         elif r < 0.70 and nf:
             k = rng.randrange(nf)
-            pairs.append(op_apply(k, rng.choice(FN_SHAPES if fdecos[k] in FN_DECOS else CLS_SHAPES)))
-            (fn_handles if fdecos[k] in FN_DECOS else cls_handles).append(nh)
+            if rng.random() < odd:
+                shape = rng.choice(ODD_SHAPES + misfits(fdecos[k]))
+            else:
+                shape = rng.choice(FN_SHAPES if fdecos[k] in FN_DECOS else CLS_SHAPES)
+            pairs.append(op_apply(k, shape))
+            (cls_handles if shape in CLS_SHAPES else fn_handles if not is_cls_shape(shape) else []).append(nh)
             nh += 1
         elif nh:
             # near miss on the handle index now and then (one past the end)
@@ -471,7 +595,18 @@ def cases(rng, tier):
                 for env in ([None] if n == 4 else CLAIMED):
                     out.append(build(env, resolve_inherit(seq, k), f'exhaustive-inherit-{n}'))
     out += inherit_grid_cases()
+    # objects the decorators are not made for: switched off, the very object comes back whatever it is
+    for n in range(1, 5):
+        for k, seq in enumerate(itertools.product(ODD_SYMS, repeat=n)):
+            if any(s[0] == 'deco' for s in seq):
+                for env in ([None] if n == 4 else CLAIMED):
+                    out.append(build(env, resolve_odd(seq, k), f'exhaustive-odd-{n}'))
+    out += odd_grid_cases()
     if tier == 'thorough':
+        syms5 = [s for s in ODD_SYMS if s not in (('env', 'unsetenv'), ('deco', 'pedantic', 'K'), ('call', 'first'))]
+        for k, seq in enumerate(itertools.product(syms5, repeat=5)):
+            if any(s[0] == 'deco' for s in seq) and any(s[0] == 'call' for s in seq):
+                out.append(build(None, resolve_odd(seq, k), 'exhaustive-odd-5'))
         syms5 = [s for s in INH_SYMS if s not in (('deco', 'trace_class'), ('callm', 'last', 'pget'), ('callm', 'last', 'm'), ('sub', 'first'))]
         for k, seq in enumerate(itertools.product(syms5, repeat=5)):
             if any(s[0] == 'deco' for s in seq) and any(s[0] == 'sub' for s in seq) and any(s[0] == 'callm' for s in seq):
@@ -493,7 +628,8 @@ def cases(rng, tier):
 def search(rng, tier, near):
     return ([random_case(rng, maxlen=8, origin='search') for _ in range(3000)] + [random_case(rng, origin='search') for _ in range(1500)]
             + [random_case(rng, maxlen=10, origin='search-again', again=0.4) for _ in range(3000)]
-            + [random_case(rng, maxlen=12, origin='search-inherit', again=0.05, inherit=0.45) for _ in range(3000)])
+            + [random_case(rng, maxlen=12, origin='search-inherit', again=0.05, inherit=0.45) for _ in range(3000)]
+            + [random_case(rng, maxlen=8, origin='search-odd', odd=0.6) for _ in range(3000)])
 
 
 # ------------------------------------------------------------------ the implementation side
@@ -525,6 +661,7 @@ class Impl:
             with open(path, 'w') as f:
                 f.write(text)
             self.code[shape] = (compile(text, path, 'exec'), path)
+        self.sourceless = {shape: compile(text, '<string>', 'exec') for shape, text in SOURCELESS.items()}
         self.loop = asyncio.new_event_loop()
         self.n = 0
 
@@ -533,7 +670,15 @@ class Impl:
         shutil.rmtree(self.dir, ignore_errors=True)
 
     def fresh(self, shape):
-        """a fresh target object whose source is a real file"""
+        """a fresh target object whose source is a real file (odd targets: also objects without any source text, builtins)"""
+        if shape in self.sourceless:
+            ns = {}
+            exec(self.sourceless[shape], ns)      # inspect.getsource() finds nothing for this one
+            return ns[shape]
+        if shape == 'x_builtin':
+            return len
+        if shape == 'x_int':
+            return int
         code, path = self.code[shape]
         self.n += 1
         mod = types.ModuleType(f'c09_{shape}')
@@ -568,14 +713,14 @@ class Impl:
         return getattr(p, d)
 
     def decorate(self, t, shape, apply):
-        before = dict(t.__dict__)
+        before = dict(getattr(t, '__dict__', None) or {})      # a builtin has none
         try:
             res = apply(t)
         except self.PedanticException:
             return None, ['decoRaised']
         except Exception as e:
             return None, ['error', type(e).__name__]
-        after = dict(t.__dict__)
+        after = dict(getattr(t, '__dict__', None) or {})
         dict_same = sorted(after) == sorted(before) and all(after[k] is before[k] for k in before)
         return (res, shape), ['decorated', res is t, dict_same]
 
@@ -584,14 +729,19 @@ class Impl:
         buf = io.StringIO()
         try:
             with contextlib.redirect_stdout(io.StringIO()):      # a traced/timed __init__ prints: not the call under observation
-                f = res().m if shape in CLS_SHAPES else res
+                f = res().m if (shape in CLS_SHAPES or shape == 'x_exec_cls') else res
+                if shape == 'x_classmethod' and isinstance(res, classmethod):
+                    f = res.__get__(None, Impl)          # a classmethod object is not callable itself: bind it to some class
         except Exception as e:
             return ['error', 'construct:' + type(e).__name__]
         n0 = len(self.marks)
         rejected = False
         with contextlib.redirect_stdout(buf):
             try:
-                r = f(a=1) if kind == 'good' else (f(1) if kind == 'positional' else f(a='x'))
+                if shape in PROBE_POSITIONAL:
+                    r = f(PROBE_POSITIONAL[shape])          # len([1]), int(1), x_enum(1): there is no parameter `a`
+                else:
+                    r = f(a=1) if kind == 'good' else (f(1) if kind == 'positional' else f(a='x'))
                 if inspect.isawaitable(r):
                     r = self.loop.run_until_complete(r)
             except self.PedanticException:
@@ -671,7 +821,7 @@ class Impl:
                     else:
                         # the very object an earlier decoration was applied to; only function objects (a class is changed in place)
                         prev = targets[op[2]] if op[2] < len(targets) else None
-                        if prev is None or prev[1] in CLS_SHAPES:
+                        if prev is None or is_cls_shape(prev[1]):
                             handles.append(None); targets.append(None); obs.append(['bad']); continue
                         t, shape = prev
                     targets.append((t, shape))
@@ -683,8 +833,7 @@ class Impl:
                             handles.append(None); obs.append(['bad']); continue
                         d, fac = factories[op[1]]
                         ap = lambda t, fac=fac: fac(t)
-                    if (d in FN_DECOS) != (shape in FN_SHAPES):
-                        handles.append(None); obs.append(['bad']); continue      # outside the domain
+                    # (a class handed to a function decorator, a function handed to a class decorator, an odd object: run like any other)
                     h, o = self.decorate(t, shape, ap)
                     handles.append(h); obs.append(o)
                 elif tag == 'call':
@@ -743,17 +892,25 @@ def run_impl(cases):
 
 def describe(op, x=None):
     extra = (' [' + ', '.join(f'{k}={v}' for k, v in sorted(x.items())) + ']') if x else ''
-    return " ".join(str(a) if not isinstance(a, dict) else ("class" if a["cls"] else "function") + ("" if a["doc"] else " without docstring") for a in op) + extra
+
+    def target(a):
+        if a.get('odd'):
+            return 'odd ' + ('class' if a['cls'] else 'callable')
+        return ("class" if a["cls"] else "function") + ("" if a["doc"] else " without docstring")
+    return " ".join(str(a) if not isinstance(a, dict) else target(a) for a in op) + extra
+
+
+UNSPECIFIED = ['unspecified']      # the model does not describe this observation (an enabled decorator met an object it is not made for)
 
 
 def judge(case, impl, model):
     obs, mo, sp = impl['obs'], model['model'], model['spec']
     ops = case['c']['ops']
     xs = (case.get('x') or {}).get('ops') or [None] * len(ops)
-    corr = obs == mo
+    corr = len(obs) == len(mo) and all(a == b or b == UNSPECIFIED for a, b in zip(obs, mo))
     why = ''
     if not corr:
-        i = next((i for i, (a, b) in enumerate(zip(obs, mo)) if a != b), min(len(obs), len(mo)))
+        i = next((i for i, (a, b) in enumerate(zip(obs, mo)) if a != b and b != UNSPECIFIED), min(len(obs), len(mo)))
         why = f'op {i} ({describe(ops[i], xs[i]) if i < len(ops) else "?"}): implementation {obs[i] if i < len(obs) else None}, model {mo[i] if i < len(mo) else None}'
     pfail = None
     for i, (o, s) in enumerate(zip(obs, sp)):
@@ -767,6 +924,7 @@ def judge(case, impl, model):
     en = model.get('enabledNow', [])
     deco_en = []
     derived = set()
+    odd_handles = set()
     for i, (op, o) in enumerate(zip(ops, mo)):
         if op[0] == 'subclass':
             derived.add(len(deco_en))
@@ -785,13 +943,19 @@ def judge(case, impl, model):
             if op[0] in ('redecorate', 'reapply'):
                 tags.add('A')
             tags.add({'decorated': 'I' if (o[1:] == [True, True]) else ('W' if o[1:] == [False, True] else 'C'),
-                      'decoRaised': 'R', 'bad': 'B', 'switchError': 'S'}.get(o[0], '?'))
+                      'decoRaised': 'R', 'bad': 'B', 'switchError': 'S', 'unspecified': 'X'}.get(o[0], '?'))
+            if op[0] in ('decorate', 'apply') and op[2].get('odd'):
+                odd_handles.add(len(deco_en) - 1)
+                if o[0] == 'decorated':
+                    tags.add('O')      # an object the decorators are not made for came back as it is
             if op[0] in ('apply', 'reapply'):
                 tags.add('F')
         elif op[0] == 'call':
-            tags.add('b' if o[0] != 'called' else ('r' if o[1] else 'p' if o[2] else 'm' if o[3] else 'n'))
+            tags.add('x' if o[0] == 'unspecified' else 'b' if o[0] != 'called' else ('r' if o[1] else 'p' if o[2] else 'm' if o[3] else 'n'))
             if o[0] == 'called' and op[1] < len(deco_en) and i < len(en) and deco_en[op[1]] != en[i]:
                 tags.add('T')
+            if o[0] == 'called' and op[1] in odd_handles:
+                tags.add('o')          # ... and was called afterwards
         if sp[i][0] == 'unclaimed':
             tags.add('U')
     nontrivial = bool(tags & set('rpmne'))
@@ -799,12 +963,15 @@ def judge(case, impl, model):
 
 
 def extra_coverage(results):
-    origins, toggled, inherited = {}, 0, 0
+    origins, toggled, inherited, odd_back, odd_called = {}, 0, 0, 0, 0
     for (c, i, m, j) in results:
         o = c.get('x', {}).get('origin', 'corpus')
         origins[o] = origins.get(o, 0) + 1
         toggled += 'T' in j['tag']
         inherited += 'H' in j['tag']
+        odd_back += 'O' in j['tag']
+        odd_called += 'o' in j['tag']
     return {'cases_by_origin': origins, 'cases_calling_after_a_toggle': toggled,
             'cases_reaching_an_inherited_member_through_a_sub_class_after_a_toggle': inherited,
+            'cases_in_which_an_odd_object_comes_back_unchanged': odd_back, 'cases_calling_such_an_object_afterwards': odd_called,
             'ops_run': sum(len(c['c']['ops']) for (c, _, _, _) in results)}
